@@ -310,13 +310,60 @@ class BodyGen:
             if self.has('goto'): opts.append(('goto', 0.7))
             if self.has('condjump'): opts.append(('condjump', 0.8))
         if in_loop and self.has('break'): opts.append(('break', 0.8))
+        if self.has('diffruns') and self.has('difflabels'): opts.append(('diffrun', 1.5))
         k = r.wpick(opts)
         self.body.shape.append(k[0] + str(depth))
         s = getattr(self, 's_' + k)(depth, in_loop)
         if self.has('difflabels') and k in ('assign', 'call') and r.chance(0.15):
             self.use('difflabels')
-            s = '{"%s"}: %s' % (r.pick(['E', 'N', 'H', 'L', 'EN', 'HL', 'ENH', 'NHL', '*', '*-E']), s)
+            D = getattr(self.env, 'diff_names', ['E', 'N', 'H', 'L'])
+            s = '{"%s"}: %s' % (r.pick([D[0], D[1], D[2], D[3], D[0] + D[1], D[2] + D[3], D[0] + D[1] + D[2], D[1] + D[2] + D[3], '*', '*-' + D[0]]), s)
         return s
+
+    def s_diffrun(self, depth, in_loop):
+        """A run of look-alike instructions under per-difficulty labels (what a difficulty switch compiles to, and the near misses:
+        a time label in the middle, a mask with a hole, extra flag bits, an incomplete cover, different instruction kinds)."""
+        r = self.rng
+        self.use('difflabels'); self.use('diffrun')
+        D = list(getattr(self.env, 'diff_names', ['E', 'N', 'H', 'L']))
+        extra = list(getattr(self.env, 'diff_extra_names', []))
+        # split difficulties 0..3 into 2-4 contiguous groups
+        cuts = sorted(r.sample([1, 2, 3], r.randint(1, 3)))
+        groups, prev = [], 0
+        for c in cuts + [4]: groups.append(D[prev:c]); prev = c
+        quirk = r.wpick([('none', 4), ('time-inside', 3), ('hole', 1.5), ('extra-bit', 1.5 if extra else 0), ('incomplete', 1), ('kind-differs', 1), ('shuffled', 0.7)])
+        self.use('diffrun:' + quirk)
+        if quirk == 'hole' and len(groups) >= 2:
+            # move one difficulty into a non-adjacent group
+            g = [list(x) for x in groups]
+            if len(g[0]) >= 1 and len(g) >= 2: g[-1] = g[-1] + [g[0][0]] if len(g[0]) > 1 or len(g) > 2 else g[-1]; 
+            if len(g[0]) > 1: g[0] = g[0][1:]
+            groups = [x for x in g if x]
+        if quirk == 'incomplete': groups = groups[:-1] or groups
+        if quirk == 'shuffled': r.shuffle(groups)
+        ty = r.pick([INT, FLOAT])
+        cands = self.vars_of(ty, writable=True)
+        use_call = not cands or (self.has('calls') and r.chance(0.4) and self.env.calls)
+        if use_call and self.env.calls:
+            name, op, sig = r.pick([c for c in self.env.calls if len(c[2]) >= 1] or self.env.calls)
+            def member(i):
+                return '%s(%s);' % (name, ', '.join((str(r.randint(0, 9) + 10 * i) if ch == 'S' else repr(float(r.randint(0, 9)) + 0.5)) for ch in sig))
+        elif cands:
+            text, reg = r.pick(cands); self.mention(reg, 'assign-lhs'); lhs = self.var_text(text, reg)
+            def member(i):
+                return '%s = %s;' % (lhs, str(r.randint(0, 9) + 10 * i) if ty == INT else repr(float(r.randint(0, 9) + 10 * i) + 0.5))
+        else:
+            return self.s_call(depth, in_loop)
+        lines = []
+        for i, g in enumerate(groups):
+            lab = ''.join(g) + (r.pick(extra) if quirk == 'extra-bit' and extra and r.chance(0.6) else '')
+            if quirk == 'time-inside' and i >= 1 and r.chance(0.5 if i == 1 else 0.8) and self.has('timelabels'):
+                d = r.randint(1, 9); lines.append('+%d:' % d); self.tmax += d * (4 if in_loop else 1); self.use('timelabels')
+            m = member(i)
+            if quirk == 'kind-differs' and i == len(groups) - 1 and self.has('calls') and self.env.calls:
+                m = self.s_call(depth, in_loop)
+            lines.append('{"%s"}: %s' % (lab, m))
+        return '\n'.join(lines)
 
     def s_assign(self, depth, in_loop):
         r = self.rng
@@ -635,6 +682,112 @@ def gen_stream(rng, env, counters, n_slots=12, feats=()):
         else:
             out.append('nop();'); k = 'call'
         st.shape.append(k)
+    out.append('ins_101();')
+    st.text = '{\n' + '\n'.join(out) + '\n}'
+    return st
+
+
+def gen_near_structured(rng, env, counters, feats=(), mutations=None):
+    """Flat label/goto programs that are the desugared forms of nested if/else-if chains, while / do-while loops and loops with
+    breaks, with 0-2 *perturbations* (a jump retargeted to another label, a label moved by one statement, a `goto end` dropped,
+    a jump duplicated): the inputs on which a structure-recovering decompiler is most likely to take a near-miss for the real thing.
+    Forward jumps stay forward and every backward jump is guarded by its own counter, so every program terminates."""
+    r = rng
+    st = Stream()
+    F = set(feats)
+    ivars = [v for v in env.int_vars if v[1] not in {c[1] for c in counters}]
+    free_counters = list(counters)
+    items = []           # ('s', text) | ('l', name) | ('j', cond-or-None, target, backward)
+    nl = [0]; ncall = [0]
+    def label():
+        nl[0] += 1; return 'N%d' % nl[0]
+    def ivar():
+        t, g = r.pick(ivars); st.mentioned.add(g); return t
+    def cond():
+        return '%s %s %s' % (ivar(), r.pick(['==', '!=', '<', '<=', '>', '>=']), str(r.randint(0, 9)))
+    def simple():
+        k = r.random()
+        if k < 0.55 or not ivars:
+            calls = [c for c in env.calls if c[2] == ['S']] or env.calls
+            name, op, sig = r.pick(calls); ncall[0] += 1
+            return ('s', '%s(%s);' % (name, ', '.join(str(ncall[0]) if ch == 'S' else '1.5' for ch in sig)))
+        if k < 0.85: return ('s', '%s %s %d;' % (ivar(), r.pick(['=', '+=', '-=']), r.randint(0, 5)))
+        if 'timelabels' in F: st.used.add('timelabels'); return ('s', '+%d:' % r.randint(1, 9))
+        return ('s', 'nop();')
+    loop_ends = []
+    def block(depth, n=None):
+        for _ in range(n if n is not None else r.randint(1, 3)):
+            k = r.wpick([('simple', 4), ('ifchain', 3 if depth > 0 else 0), ('while', 1.5 if depth > 0 and free_counters else 0),
+                         ('dowhile', 1.5 if depth > 0 and free_counters else 0), ('loopbreak', 2 if depth > 0 and free_counters else 0),
+                         ('break', 1.5 if loop_ends else 0)])
+            st.shape.append(k)
+            if k == 'simple': items.append(simple())
+            elif k == 'break':
+                # leave the innermost or an outer loop, conditionally or not
+                tgt = r.pick(loop_ends[-2:])
+                items.append(('j', cond() if r.chance(0.7) else None, tgt, False)); st.njumps += 1
+            elif k == 'ifchain':
+                arms = r.randint(1, 3); has_else = r.chance(0.5)
+                end = label()
+                for a in range(arms):
+                    nxt = label()
+                    items.append(('j', '!(%s)' % cond(), nxt, False)); st.njumps += 1
+                    block(depth - 1, r.randint(0, 2))
+                    if a < arms - 1 or has_else:
+                        items.append(('j', None, end, False)); st.njumps += 1
+                    items.append(('l', nxt))
+                if has_else: block(depth - 1, r.randint(1, 2))
+                items.append(('l', end))
+            else:
+                c, g = free_counters.pop(); st.mentioned.add(g)
+                lim = r.randint(1, 3)
+                top, end = label(), label()
+                items.append(('s', '%s = 0;' % c))
+                if k == 'while':
+                    items.append(('j', '!(%s < %d)' % (c, lim), end, False)); st.njumps += 1
+                items.append(('l', top))
+                loop_ends.append(end)
+                block(depth - 1, r.randint(1, 3))
+                loop_ends.pop()
+                items.append(('s', '%s += 1;' % c))
+                extra = (' && (%s)' % cond()) if (k == 'loopbreak' and 'logic_cond' in F and r.chance(0.4)) else ''
+                items.append(('j', '(%s < %d)%s' % (c, lim, extra), top, True)); st.njumps += 1; st.nback += 1
+                items.append(('l', end))
+    block(r.pick([1, 2, 2, 3]), r.randint(2, 4))
+    # perturbations
+    nmut = mutations if mutations is not None else r.pick([0, 1, 1, 1, 2])
+    for _ in range(nmut):
+        jumps = [i for i, it in enumerate(items) if it[0] == 'j']
+        labs = [i for i, it in enumerate(items) if it[0] == 'l']
+        if not jumps or not labs: break
+        m = r.wpick([('retarget', 5), ('move-label', 2), ('drop-goto', 1.5), ('dup-jump', 1)])
+        st.used.add('perturb:' + m)
+        if m == 'retarget':
+            i = r.pick(jumps); _, c, tgt, back = items[i]
+            cands = [items[j][1] for j in labs if (j < i) == back and items[j][1] != tgt]
+            if cands: items[i] = ('j', c, r.pick(cands), back)
+        elif m == 'move-label':
+            i = r.pick(labs)
+            j = i + r.pick([-1, 1])
+            if 0 <= j < len(items) and not (items[j][0] == 'j' and items[j][3]):     # never move a label across its guarded back-jump
+                items[i], items[j] = items[j], items[i]
+        elif m == 'drop-goto':
+            un = [i for i in jumps if items[i][1] is None]
+            if un: del items[r.pick(un)]
+        else:
+            fw = [i for i in jumps if not items[i][3]]
+            if fw:
+                i = r.pick(fw); items.insert(r.randint(0, i), items[i])
+    # a forward jump must stay forward after label moves: verify, else drop the jump
+    pos = {it[1]: k for k, it in enumerate(items) if it[0] == 'l'}
+    out = []
+    for k, it in enumerate(items):
+        if it[0] == 's': out.append(it[1])
+        elif it[0] == 'l': out.append(it[1] + ':')
+        else:
+            _, c, tgt, back = it
+            if tgt not in pos or (pos[tgt] > k) == back: continue
+            out.append(('if (%s) goto %s;' % (c, tgt)) if c else 'goto %s;' % tgt)
     out.append('ins_101();')
     st.text = '{\n' + '\n'.join(out) + '\n}'
     return st
